@@ -118,3 +118,22 @@ package routing
 //@ atcall SendStatusReport: arg3 == 11 ==> exists j int :: 0 <= j && j < len(bp.bndl.CanonicalBlocks) && !uf("ebmKnown", bool, bp.bndl.CanonicalBlocks[j].Value.BlockTypeCode()) && (uint64(bp.bndl.CanonicalBlocks[j].BlockControlFlags) & 0x02) != 0
 //@ atcall bundleDeletion: !known0 && arg2 == 11 && exists j int :: 0 <= j && j < len(bp.bndl.CanonicalBlocks) && !uf("ebmKnown", bool, bp.bndl.CanonicalBlocks[j].Value.BlockTypeCode()) && (uint64(bp.bndl.CanonicalBlocks[j].BlockControlFlags) & 0x04) != 0
 //@ loop 0 invariant 0 <= i + 1 && i < len(bp.bndl.CanonicalBlocks) && bp.bndl != nil && bp.Id == bp.bndl.ID()
+
+// ---- forwarding fan-out (C05, C13): every failed transmission is reported to the routing algorithm ----
+
+// Ghost bookkeeping of the two interfaces the per-peer goroutine talks to.
+// govc:ghostfield $lastSendOK bool
+// govc:ghostfield $failReports uint64
+// govc:ghostfield $lastFailed uint64
+
+// govc:iface Algorithm.ReportFailure
+//@ assigns self.$failReports, self.$lastFailed, self.$algoState, arg0.store.$qok
+//@ ensures self.$failReports == old(self.$failReports) + 1 && self.$lastFailed == ref(arg1)
+
+// The goroutine started per selected sender: a transmission that returns an error is reported to the routing
+// algorithm exactly once, naming that sender (so that exactly this peer becomes eligible again and, under spray and
+// wait, its copy is given back); a successful one is not reported.
+// govc:func (*Core).forward$1 property C05 C13
+//@ requires c != nil && c.routing != nil && node != nil && bp.bndl != nil && blocksNonNil(*bp.bndl)
+//@ ensures !node.$lastSendOK ==> c.routing.$failReports == old(c.routing.$failReports) + 1 && c.routing.$lastFailed == ref(node)
+//@ ensures node.$lastSendOK ==> c.routing.$failReports == old(c.routing.$failReports)
